@@ -565,3 +565,52 @@ pub fn gen_wraparound_build(rng: &mut Rng) -> RunSpec {
         prior: vec![],
     }
 }
+
+/// Two conversions that run at the same time in one directory (think `make -j`):
+/// different inputs, different outputs, both expected to succeed.
+pub fn gen_duo(rng: &mut Rng, pool: &Pool) -> [RunSpec; 2] {
+    let mut out: Vec<RunSpec> = vec![];
+    let dir = if rng.chance(1, 2) { String::new() } else { "work/".to_string() };
+    for (i, tag) in ["a", "b"].iter().enumerate() {
+        let mask = GenMask(GenMask::swarm(rng).0 & !gen::G_FILE);
+        let (mut text, _) = gen::gen_input(rng, pool, mask);
+        text = text.replace('\0', "");
+        let mut files = vec![];
+        let mut stdin = None;
+        let input = match rng.below(3) {
+            0 => {
+                stdin = Some(text.clone().into_bytes());
+                InputSel::Stdin
+            }
+            _ => {
+                let name = format!("{}{}_{}.bob", dir, tag, rng.pick(&["in", "diagram", "x y"]));
+                files.push((name.clone(), text.clone().into_bytes()));
+                InputSel::File(name)
+            }
+        };
+        let mut opts = vec![];
+        if rng.chance(1, 2) {
+            opts.push(Opt { name: "scale".into(), value: rng.pick(SCALES).to_string(), eq_syntax: false });
+        }
+        if rng.chance(1, 3) {
+            opts.push(Opt { name: "background".into(), value: rng.pick(gen::COLORS).to_string(), eq_syntax: true });
+        }
+        // mostly -o into the shared directory; sometimes one of the two prints to stdout
+        let outp = if i == 1 && rng.chance(1, 5) { None } else { Some(format!("{}{}_out.svg", dir, tag)) };
+        out.push(RunSpec {
+            mode: Mode::Convert(Convert { input, opts, out: outp, out_long: rng.chance(1, 2), positional_at: 0, extra_args: vec![] }),
+            dirs: if dir.is_empty() { vec![] } else { vec!["work".into()] },
+            files,
+            stdin,
+            stdin_pipe: false,
+            fifos: vec![],
+            faults: vec![],
+            rand_seed: rng.next_u64() | 1,
+            env: vec![],
+            prior: vec![],
+        });
+    }
+    let b = out.pop().unwrap();
+    let a = out.pop().unwrap();
+    [a, b]
+}
